@@ -15,20 +15,21 @@ const (
 	VerifPtFlushAdded   = 29 // FlushSession: offset added, before the flusher's own Release
 
 	// skiplist operations: one label immediately before each atomic access
-	VerifPtLevelLoad = 30 // NewLevel: load of s.level
-	VerifPtLevelCas  = 31 // NewLevel: CAS of s.level
-	VerifPtFP0       = 32 // findPath: load of s.level
-	VerifPtFP1       = 33 // findPath: curr := prev.getNext(i)
-	VerifPtFP2       = 34 // findPath: next, deleted := curr.getNext(i)
-	VerifPtFPH       = 35 // findPath: helpDelete CAS
-	VerifPtInsPub    = 36 // Insert4: level-0 publish CAS
-	VerifPtInsOwn    = 37 // Insert4: x.getNext(i) (and the CAS of the node's own pointer)
-	VerifPtInsCheck  = 38 // Insert4: x.getNext(i) after a successful upper-level link
-	VerifPtInsLink   = 39 // Insert4: upper-level link CAS
-	VerifPtSdLoad    = 40 // softDelete: delNode.getNext(i)
-	VerifPtSdCas     = 41 // softDelete: mark CAS
-	VerifPtItFirst   = 42 // Iterator.SeekFirst: head.getNext(0)
-	VerifPtItNext    = 43 // Iterator.Next: curr.getNext(0)
-	VerifPtItHelp    = 44 // Iterator.Next: helpDelete CAS
-	VerifPtInsSucc   = 45 // Insert4: succs[i].getNext(i) before an upper-level link
+	VerifPtLevelLoad  = 30 // NewLevel: load of s.level
+	VerifPtLevelCas   = 31 // NewLevel: CAS of s.level
+	VerifPtFP0        = 32 // findPath: load of s.level
+	VerifPtFP1        = 33 // findPath: curr := prev.getNext(i)
+	VerifPtFP2        = 34 // findPath: next, deleted := curr.getNext(i)
+	VerifPtFPH        = 35 // findPath: helpDelete CAS
+	VerifPtInsPub     = 36 // Insert4: level-0 publish CAS
+	VerifPtInsOwn     = 37 // Insert4: x.getNext(i) (and the CAS of the node's own pointer)
+	VerifPtInsCheck   = 38 // Insert4: x.getNext(i) after a successful upper-level link
+	VerifPtInsLink    = 39 // Insert4: upper-level link CAS
+	VerifPtSdLoad     = 40 // softDelete: delNode.getNext(i)
+	VerifPtSdCas      = 41 // softDelete: mark CAS
+	VerifPtItFirst    = 42 // Iterator.SeekFirst: head.getNext(0)
+	VerifPtItNext     = 43 // Iterator.Next: curr.getNext(0)
+	VerifPtItHelp     = 44 // Iterator.Next: helpDelete CAS
+	VerifPtInsSucc    = 45 // Insert4: succs[i].getNext(i) before an upper-level link
+	VerifPtAcqBackoff = 46 // Acquire: incremented a closed session, before backing off through Release
 )
